@@ -591,6 +591,17 @@ fn run_replay(path: &str) -> i32 {
                 }
             }
         }
+        "F" => {
+            // engine F episodes are cheap: re-run the job the episode came from and keep the recorded signature
+            let want = doc["signature"].as_str().unwrap_or("").to_string();
+            let r = if scenario.contains("logging") { engine_f::run_logging_child(false, 1, "F/logging") } else { engine_f::run(false, 1, "F/plain") };
+            if let Some(e) = r.error {
+                eprintln!("{}", e);
+                return 2;
+            }
+            let vs: Vec<Violation> = r.found.into_iter().map(|f| f.violation).filter(|v| want.is_empty() || v.signature() == want).collect();
+            (vec![format!("episode {}", doc["episode"])], vs)
+        }
         _ => {
             eprintln!("engine {:?}: re-run the check itself (./check {} ) to reproduce; the file records the failing episode", engine, prop);
             return 2;
